@@ -21,6 +21,7 @@ type collector struct {
 func newCollector(partCount, totalSize int, now time.Time) *collector {
 	return &collector{
 		partCount: partCount,
+		createdAt: now,
 
 		buf:    make([]byte, totalSize),
 		bitMap: newBitMap(partCount),
@@ -75,10 +76,14 @@ type fragLayer struct {
 	cf context.CancelFunc
 }
 
+// collectorTTL is how long a partial message is kept waiting for its remaining parts.
+const collectorTTL = 30 * time.Second
+
 func newFragLayer() *fragLayer {
 	ctx, cf := context.WithCancel(context.Background())
 	fl := &fragLayer{
 		cf:         cf,
+		ttl:        collectorTTL,
 		collectors: make(map[collectorID]*collector),
 	}
 	go fl.cleanupLoop(ctx)
